@@ -390,7 +390,10 @@ Fixpoint nodupb (l : list N) : bool :=
   | x :: t => negb (existsb (N.eqb x) t) && nodupb t
   end.
 
+(** A block without the parameters-present flag makes the real code iterate
+    over [None] (TypeError, mapped to failure). *)
 Definition check_secblk (a : asb) : bool :=
+  N.testbit (a_flags a) 0 &&
   nodupb (map fst (a_params a)) && forallb (fun rs => nodupb (map fst rs)) (a_results a).
 
 Definition param (a : asb) (id : N) : option cbor :=
